@@ -67,6 +67,12 @@ def run(ctx):
             for nlp in (False, True):
                 extra.append(dict(entry=entry, limit=5, nlp=nlp, fuzzy=True, thr=0, ponly=False, pboost=False, allplat=True, plats=[],
                                   nocross=False, boost=False, query="raw", raw=(filler + " " + tail)[-990:].strip(), corpus="mix"))
+    # a query that is exactly the name of a command (its first word), on the entry points that orchestrate exact + typo search
+    for name in ("zqax", "zqzx", "zqmx", "zqkx"):
+        for entry in ("legacyfuzzy", "legacynlp", "legacyoptions", "universal", "pipeline"):
+            for thr in (0, -30):
+                extra.append(dict(entry=entry, limit=5, nlp=False, fuzzy=entry != "legacyoptions", thr=thr, ponly=False, pboost=False, allplat=True,
+                                  plats=[], nocross=False, boost=False, query="raw", raw=name, corpus="alpha"))
     for s in extra:
         if s["entry"] == "cli":
             s.update(nlp=True, fuzzy=True, thr=-30)
